@@ -631,7 +631,7 @@ def main(argv):
         if pid not in PROPS:
             log('unknown property', pid)
             return 2
-        seed = int(os.environ.get('VERIF_SEED', DEFAULT_SEED))
+        seed = int(os.environ.get('VERIF_SEED') or DEFAULT_SEED)
         if len(argv) >= 3 and argv[1] == '--replay':
             return run_property(pid, os.environ.get('VERIF_TIER', 'quick'), seed, replay_file=argv[2])
         tier = argv[1] if len(argv) > 1 else os.environ.get('VERIF_TIER', 'quick')
